@@ -252,7 +252,9 @@ class Executor:
         try:
             if m is None:
                 raise Unsupported(f"statement {type(node).__name__} at line {node.lineno}")
-            if ctx.lenient and ctx.contract.tracked and isinstance(
+            if isinstance(node, ast.Expr) and isinstance(node.value, ast.Constant):
+                outs = [Outcome('normal', state)]      # docstring / bare constant
+            elif ctx.lenient and ctx.contract.tracked and isinstance(
                     node, (ast.Assign, ast.AugAssign, ast.Expr, ast.Delete, ast.AnnAssign, ast.Assert)) \
                     and not self.mentions_tracked(node):
                 outs = self.abstract_stmt(node, state)
@@ -769,6 +771,14 @@ class Executor:
                             except Exception:
                                 pass
         gvars = set((ctx.contract.ghost.get('vars') or {}).keys())
+        cc = ctx.contract.ghost.get('count_calls') or {}
+        if cc:
+            for n in ast.walk(ast.Module(body=body, type_ignores=[])):
+                if isinstance(n, ast.Call):
+                    nm = n.func.attr if isinstance(n.func, ast.Attribute) else \
+                        (n.func.id if isinstance(n.func, ast.Name) else None)
+                    if nm in cc:
+                        mutated.add(cc[nm])
         if gvars:
             for n in ast.walk(ast.Module(body=body, type_ignores=[])):
                 if isinstance(n, ast.Call) and isinstance(n.func, ast.Attribute) and \
